@@ -60,6 +60,9 @@ def search_lists():
     for a, b in (("inc1", "inc2"), ("inc2", "inc1")):
         for ka, kb in itertools.product("IS", repeat=2):
             out.append([(ka, a), (kb, b)])
+    # a directory named again later on the same command keeps its first position (gcc ignores the duplicate)
+    out.append([("I", "inc1"), ("I", "inc2"), ("I", "inc1")])
+    out.append([("S", "inc2"), ("S", "inc1"), ("S", "inc2")])
     return out
 
 
@@ -67,14 +70,17 @@ def tu_text(seq):
     lines = ['#define H_Q "h.h"', "#define H_A <h.h>", "int head;"] + [x for d in seq for x in d.split("\n")]
     for d in DIRS:
         lines += [f"#ifdef FROM_{TAG[d]}", f"int probe_{TAG[d]};", "#endif"]
-    lines += ["#ifdef FROM_PRE", "int probe_PRE;", "#endif", "int tail;"]
+    lines += ["#ifdef FROM_PRE", "int probe_PRE;", "#endif", "#ifdef REC_L2", "int probe_REC;", "#endif", "int tail;"]
     return "\n".join(lines) + "\n"
 
 
 def build(root, placement, style, seq):
     shutil.rmtree(root, ignore_errors=True)
     files = {"src/main.c": tu_text(seq), "src/sub/k.h": '#include "h.h"\nint k;\n', "inc1/g.h": '#include "h.h"\nint g;\n',
-             "pre/pre.h": "#define FROM_PRE\nint pre;\n", "src/disp.h": "#include IMPL\nint disp;\n", "inc2/.keep.txt": "", "src/sub/.keep.txt": ""}
+             "pre/pre.h": "#define FROM_PRE\nint pre;\n", "src/disp.h": "#include IMPL\nint disp;\n", "inc2/.keep.txt": "", "src/sub/.keep.txt": "",
+             # bounded recursive inclusion: the header includes itself, every level under another macro state (valid C; depth 3)
+             "src/rec.h": "\n".join(["#ifndef REC_L1", "#define REC_L1", "int rec1;", '#include "rec.h"', "int after1;", "#else", "#ifndef REC_L2", "#define REC_L2", "int rec2;",
+                                     '#include "rec.h"', "#else", "int rec3;", "#endif", "#endif"]) + "\n"}
     for d in placement:
         files[f"{d}/h.h"] = h_text(d, style)
     codebase.write_tree(root, files)
@@ -308,6 +314,11 @@ def run(tier):
                         if tier == "quick" and len(sq) == 2 and (hash((pl, st, sq, sl)) + env.SEED) % 5:
                             continue
                         cases.append((pl, st, sq, sl, forced))
+    for pl in (("src",), ("src", "inc1", "inc2")):
+        for st in ("none", "once"):
+            for sq in (('#include "rec.h"',), ('#include "rec.h"', '#include "h.h"'), ('#include "h.h"', '#include "rec.h"', '#include "rec.h"')):
+                for sl in slists:
+                    cases.append((pl, st, sq, sl, False))
     chunks = [cases[i:i + 400] for i in range(0, len(cases), 400)]
     res = par.pmap(_work, [(c, False) for c in chunks])      # gcc judges every ninth case (every case costs a process)
     for r in res:
@@ -319,7 +330,7 @@ def run(tier):
     rep.coverage.update({
         "states": sinfo["states"], "transitions": sinfo["transitions"], "traces_validated_against_impl": sinfo["transitions"] + judged,
         "evaluations": n + sinfo["transitions"], "distinct_nontrivial": judged,
-        "rule": "15 placements of h.h x 5 header styles (plain, #ifndef guard, shared guard name, #pragma once, another #pragma) x include sequences of length <=%d over 9 directive forms (incl. the X-macro dispatch pattern) x 13 ordered -I/-isystem search lists x -include on/off%s; "
+        "rule": "15 placements of h.h x 5 header styles (plain, #ifndef guard, shared guard name, #pragma once, another #pragma) x include sequences of length <=%d over 9 directive forms (incl. the X-macro dispatch pattern) x 15 ordered -I/-isystem search lists (two with a repeated directory) x -include on/off%s; "
                 "non-trivial = no header missing; S: BFS over find_include_file call sequences (4 names x 4 directories x 2 forms)" % (
                     2 if tier == "quick" else 3, " (length-2 sequences: a seed-rotated fifth)" if tier == "quick" else ""),
         "cases": n, "judged": judged, "missing_header_excluded": n - judged, "failing_cases": sum(r[2] for r in res),
